@@ -140,20 +140,29 @@ func init() {
 				} else if back >= 0 {
 					text += fmt.Sprintf("$INCLUDE %s\n", name(back))
 				}
+				if k%2 == 1 {
+					text = strings.TrimSuffix(text, "\n") // the last line is not terminated
+				}
 				if i == 0 {
 					dc.rootText = text
 				}
 				dc.files = append(dc.files, struct{ req, canon, text string }{name(i), name(i), text})
 			}
-			t, _, op, pan := runDictParse(dc)
+			t, dd, op, pan := runDictParse(dc)
 			gotCycle := len(t.parts) > 1 && t.parts[0] == "i1" && t.parts[1] == "i11"
 			gotOK := len(t.parts) > 0 && t.parts[0] == "i0"
 			what := fmt.Sprintf("chain of %d files %s .. %s, last file includes %d", depth, name(0), name(depth-1), back)
 			if pan || op.depth != 0 {
 				c.Fail("spec", "Parse", "chain", what, fmt.Sprint("panic=", pan, " open=", op.depth), "no panic, all closed", "")
 			}
+			if k%2 == 1 {
+				what += ", no file ends with a line terminator"
+			}
 			if back < 0 && !gotOK {
 				c.Fail("spec", "Parse", "chain-oracle", what, t.String(), "accepted", "an acyclic include chain is accepted whatever its depth and whatever the files are called")
+			}
+			if back < 0 && gotOK && dd != nil && len(dd.Attributes) != depth {
+				c.Fail("spec", "Parse", "chain-oracle", what, fmt.Sprintf("%d attributes", len(dd.Attributes)), fmt.Sprintf("%d attributes, one per file", depth), "every line of every included file is read")
 			}
 			if back >= 0 {
 				want := fmt.Sprintf("b%x i%x", []byte(name(depth-1)), 2)
@@ -191,6 +200,12 @@ func init() {
 			{"\n$INCLUDE inc\n", "# c\n\nBOGUS\n", "inc", 3},
 			{"\n\n$INCLUDE root\n", "", "root", 3},
 			{"ATTRIBUTE A 1 string\n   \n\t\n#\nVALUE A v notanumber\n", "", "root", 5},
+			// a last line without a line terminator is a line like any other
+			{"\n# c\nBOGUS", "", "root", 3},
+			{"ATTRIBUTE A 1 string\n$INCLUDE inc", "\nBOGUS", "inc", 2},
+			{"\n\n$INCLUDE root", "", "root", 3},
+			{"$INCLUDE inc\n", "ATTRIBUTE A 1 string\n$INCLUDE root", "inc", 2},
+			{"ATTRIBUTE A 1 string\r\nATTRIBUTE A 2 string", "", "root", 2},
 		} {
 			dc := &dictCase{rootName: "root", rootText: lc.root}
 			dc.files = append(dc.files, struct{ req, canon, text string }{"inc", "inc", lc.inc})
